@@ -280,8 +280,10 @@ fn assign(groups: &[usize], log: &mut std::collections::VecDeque<bool>, fail_lab
         if !(any_fail && stop_all_on_failure) {
             for _ in 0..*n {
                 match log.pop_front() {
-                    Some(true) => g.push("MOk".to_string()),
-                    _ => { g.push(format!("MFailed {fail_label}")); any_fail = true; break }
+                    // no log entry: the request changed nothing at the parent (e.g. a revocation for a key the parent no
+                    // longer holds) - a command without events is not stored, a failed command is
+                    Some(true) | None => g.push("MOk".to_string()),
+                    Some(false) => { g.push(format!("MFailed {fail_label}")); any_fail = true; break }
                 }
             }
         }
